@@ -170,6 +170,12 @@ func buildCause(rnd *rand.Rand, c *Case) ([]byte, map[string]interface{}) {
 		raw = []byte(`["message","x"]`)
 	case "string":
 		raw = []byte(`"message"`)
+	case "trailing":
+		b, _ := json.Marshal(doc)
+		raw = append(b, []string{"}", " trailing garbage", "]", ",", "x"}[rnd.Intn(5)]...)
+	case "concat":
+		b, _ := json.Marshal(doc)
+		raw = append(append(append([]byte{}, b...), []string{"", " ", "\n"}[rnd.Intn(3)]...), b...)
 	default:
 		b, _ := json.Marshal(doc)
 		raw = append([]byte("{not json "), b...)
